@@ -99,6 +99,22 @@ CHECKS = {
         technique=TECH + 'seeded operation histories (stateful session) with pass_failure and '
                   'foreign_activity faults; invariants after every event',
         design='5 C11'),
+    'C10': dict(
+        level='fault_enumeration',
+        text='For each sampled valid design every applicable site (capped and then sampled per '
+             'class for large designs) of 13 structural fault classes is injected into a fresh '
+             'build -- through the API where it allows it, directly into Block.logic / '
+             'wirevector_set otherwise -- confirmed malformed by an independent validator, and '
+             'offered to sanity_check and the simulator constructors, which must raise '
+             'PyrtlError/PyrtlInternalError (no other exception type, no hang, no simulator). '
+             'Positive half: each design is accepted and iterated under K tie-break schedules x '
+             'hash seeds x statement orders, checking each-net-once and producer-before-consumer. '
+             'Exhaustive per design over the enumerated sites; designs are sampled.',
+        note='Trusted: the independent validator in verifsim/props/c10.py (a site it cannot '
+             'confirm is skipped, never judged); per-site 4 s hang budget.',
+        technique=TECH + 'structural fault enumeration at every site of sampled designs + seeded '
+                  'tie-break schedules through the Block.__iter__ hook',
+        design='5 C10'),
 }
 
 NOT_APPLICABLE = {
